@@ -131,11 +131,20 @@ func (e *Engine) FunctionsFor(prop string) []string {
 		}
 		// C15 (no self-inflicted failure): every function under contract contributes its
 		// run-time-safety obligations
-		if prop == "C15" || contractMentions(ct, prop) {
+		if prop == "C15" || e.contractMentionsAny(ct, prop) {
 			out = append(out, k)
 		}
 	}
 	return out
+}
+
+func (e *Engine) contractMentionsAny(ct *Contract, prop string) bool {
+	for p := range e.Specs.covers(prop) {
+		if contractMentions(ct, p) {
+			return true
+		}
+	}
+	return false
 }
 
 func contractMentions(ct *Contract, prop string) bool {
